@@ -250,11 +250,20 @@ def foreach_clause_action(ss, inside=False):
 def opt_weak_start(ss):
     """open point OP3: an optional whose body does not start with a plain match (a case with an `else` arm, a try, an if, a wait, an
     action) - whether a byte that only the fall-back would take enters the optional is not settled by the reference"""
+    def weak(f):
+        if _actionish(f) or f['t'] in ('try', 'wait'):
+            return True
+        if f['t'] == 'case':
+            return any('else' in cl['ps'] for cl in f['cl'])
+        if f['t'] in ('match', 'append'):
+            m = f['m']
+            return m.get('k') == 're' and genprog.regex_nullable(m['r'])
+        if f['t'] in ('loop', 'foreach', 'opt'):
+            return bool(f['b']) and weak(f['b'][0])
+        return False
     for s in ss:
-        if s['t'] == 'opt' and s['b']:
-            f = s['b'][0]
-            if _actionish(f) or f['t'] in ('try', 'wait') or (f['t'] == 'case' and any('else' in cl['ps'] for cl in f['cl'])):
-                return True
+        if s['t'] == 'opt' and s['b'] and weak(s['b'][0]):
+            return True
         for key in ('b', 'h', 'els'):
             if isinstance(s.get(key), list) and opt_weak_start(s[key]):
                 return True
